@@ -197,6 +197,14 @@ fn enabled(inst: &Instance, hist: &[Act], r: &RunResult) -> Vec<Act> {
         return out;
     }
     let is_async = inst.imp == Impl::Tokio;
+    if r.yielded {
+        out.push(Act::Resume);
+        let (_, _, canc, _) = spend(hist);
+        if canc < inst.cancel_budget && (r.suspended_in_read || inst.cancel_writes) {
+            out.push(Act::Cancel);
+        }
+        return out;
+    }
     if is_async && r.asked.is_some() {
         let (total, streak) = ticks(hist);
         // never let the documented read timeout elapse: (streak + 1) steps must stay below it
@@ -354,7 +362,7 @@ fn canon_of(hist: &[Act], r: &RunResult, bad: bool) -> (u64, u64) {
     bytes.extend_from_slice(&[fails, pend, canc, eof as u8, r.finished as u8]);
     bytes.extend_from_slice(&(r.calls_started as u32).to_le_bytes());
     let (tk, streak) = ticks(hist);
-    bytes.extend_from_slice(&[tk, streak, storms(hist)]);
+    bytes.extend_from_slice(&[tk, streak, storms(hist), r.yielded as u8]);
     bytes.extend_from_slice(&r.ticks_in_call.to_le_bytes());
     bytes.extend_from_slice(&(r.results.len() as u32).to_le_bytes());
     bytes.extend_from_slice(&(r.unanswered.map(|x| x as u32 + 1).unwrap_or(0)).to_le_bytes());
